@@ -279,8 +279,14 @@ class VList(V):
 
 
 class VDict(V):
+    """dict with concrete shape. `pairs` is the content at creation and is never mutated; a state that writes the dict keeps its own
+    content under heap[cell] (so states forked before the write do not see it). Read through Exec.dpairs(d, st) / VDict.of(st)."""
     def __init__(self, pairs):
-        self.pairs = list(pairs)     # [(V key, V val)]
+        self.pairs = tuple(pairs)     # ((V key, V val), ...)
+        self.cell = 'dict!%d' % next(_fresh)
+
+    def of(self, st):
+        return list(st.heap.get(self.cell, self.pairs))
 
 
 class VSet(V):
@@ -588,7 +594,7 @@ class Exec:
         if isinstance(v, (VTuple, VList, VSet)):
             return z3.BoolVal(len(self.items(v, st)) > 0)
         if isinstance(v, VDict):
-            return z3.BoolVal(len(v.pairs) > 0)
+            return z3.BoolVal(len(v.of(st)) > 0)
         if isinstance(v, (VExt, VClass, VFunc, VModule, VBuiltin)):
             return z3.BoolVal(True)
         if isinstance(v, VObj):
@@ -906,7 +912,7 @@ class Exec:
                 else:
                     c = z3.Or(*[self.eq(l, x, st) for x in its]) if its else z3.BoolVal(False)
             elif isinstance(r, VDict):
-                c = z3.Or(*[self.eq(l, k, st) for k, _ in r.pairs]) if r.pairs else z3.BoolVal(False)
+                c = z3.Or(*[self.eq(l, k, st) for k, _ in r.of(st)]) if r.of(st) else z3.BoolVal(False)
             elif isinstance(r, VObj):
                 outs = None
                 for s2, m in self.getattr(r, '__contains__', st, {'mod': 'pgpy'}):
@@ -1349,6 +1355,35 @@ class Exec:
                     out += [(s2, i)] if isinstance(i, Raise) else self.index(o, i, s2, n)
         return out
 
+    def suffix_view(self, S):
+        """(BASE, off) if S is syntactically BASE[off:] (seq.extract BASE off (len BASE - off)), else (S, 0)"""
+        try:
+            if z3.is_app(S) and S.decl().kind() == z3.Z3_OP_SEQ_EXTRACT:
+                base, off, ln = S.arg(0), S.arg(1), S.arg(2)
+                if z3.is_int_value(z3.simplify(ln - (z3.Length(base) - off))):
+                    if z3.simplify(ln - (z3.Length(base) - off)).as_long() == 0:
+                        return base, off
+        except Exception:
+            pass
+        return S, z3.IntVal(0)
+
+    def in_bounds_prefix(self, st, S, hi):
+        """for S[:hi] / del S[:hi]: if the path condition entails 0 <= hi <= len(S), return (head, tail) = (S[:hi], S[hi:]) written as plain
+        extractions of the underlying base sequence (no clamping ite's, offsets added up); else None (general clamped form is used)"""
+        if self.spec_depth > 0 or hi is None:
+            return None
+        h = self.as_int(hi)
+        base, off = self.suffix_view(S)
+        L = z3.Length(base) - off
+        try:
+            if not self.entails(st, z3.And(h >= 0, h <= L, off >= 0, off <= z3.Length(base))):
+                return None
+        except Exception:
+            return None
+        head = z3.Extract(base, z3.simplify(off), z3.simplify(h))
+        tail = z3.Extract(base, z3.simplify(off + h), z3.simplify(z3.Length(base) - off - h))
+        return head, tail
+
     def norm_idx(self, i, L):
         """python index normalisation for slices"""
         z = self.as_int(i)
@@ -1375,6 +1410,10 @@ class Exec:
             raise ToolLimit('slice of symbolic str')
         S = self.seq(o, st)
         L = z3.Length(S)
+        if (lo is None or lo.conc() == 0) and hi is not None and hi.conc() is None:
+            ht = self.in_bounds_prefix(st, S, hi)
+            if ht is not None:
+                return self.new_buf(st, ht[0]) if isinstance(o, VBuf) else VBytes(ht[0])
         a = self.norm_idx(lo, L) if lo is not None else z3.IntVal(0)
         b = self.norm_idx(hi, L) if hi is not None else L
         z = z3.Extract(S, a, z3.If(b > a, b - a, 0))
@@ -1406,7 +1445,7 @@ class Exec:
         if isinstance(o, VDict):
             res = []
             rest = st
-            for k, v in o.pairs:
+            for k, v in o.of(st):
                 for s2, t in self.fork(rest.clone(), self.eq(i, k, rest)):
                     if t:
                         res.append((s2, v))
@@ -1466,9 +1505,9 @@ class Exec:
                                 continue
                             d = dict(acc)
                             if kw.arg is None:
-                                if not isinstance(v, VDict) or not all(isinstance(k, VStr) and isinstance(k.s, str) for k, _ in v.pairs):
+                                if not isinstance(v, VDict) or not all(isinstance(k, VStr) and isinstance(k.s, str) for k, _ in v.of(s3)):
                                     raise ToolLimit('** expansion of a non-literal mapping')
-                                for k, x in v.pairs:
+                                for k, x in v.of(s3):
                                     d[k.s] = x
                             else:
                                 d[kw.arg] = v
@@ -1698,7 +1737,7 @@ class Exec:
                             return [(s2, Raise('TypeError', getattr(n, 'lineno', None)))]
                         return self.call(m, [], {}, s2, ctx, n, env)
                 if isinstance(x, VDict):
-                    return [(st, VInt(len(x.pairs)))]
+                    return [(st, VInt(len(x.of(st))))]
                 return [(st, VInt(z3.Length(self.seq(x, st))))]
             if name == 'max' or name == 'min':
                 zs = [self.as_int(a) for a in A]
@@ -1748,6 +1787,10 @@ class Exec:
                 return [(st, VBuiltin(t))]
             if name == 'getattr':
                 if not (isinstance(A[1], VStr) and isinstance(A[1].s, str)):
+                    if isinstance(A[0], (VBuiltin, VModule, VExt)) and not isinstance(A[1], (VInt, VBool, VNone)):
+                        # attribute of an external module chosen by a name this run does not know: an opaque external value
+                        # (contracts that pin the choice then fail instead of the function dropping out of reach)
+                        return [(st, VExt('getattr', (A[0], A[1])))]
                     raise ToolLimit('getattr with non-constant name')
                 if isinstance(A[0], VBuiltin) and A[0].bound is None:
                     return [(st, VBuiltin(A[0].name + '.' + A[1].s))]
@@ -1780,7 +1823,7 @@ class Exec:
                 if isinstance(x, VList):
                     return [(st, self.new_list(st, self.items(x, st)))]
                 if isinstance(x, VDict):
-                    return [(st, VDict(list(x.pairs)))]
+                    return [(st, VDict(x.of(st)))]
                 if isinstance(x, VObj):
                     for s2, m in self.getattr(x, '__copy__' if name == 'copy.copy' else '__deepcopy__', st, ctx, n):
                         if isinstance(m, Raise):
@@ -2052,10 +2095,20 @@ class Exec:
                 return [(st, VBytes(t))]
             if name == 'decode':
                 enc = A[0].s if A and isinstance(A[0], VStr) else (kws.get('encoding').s if kws.get('encoding') is not None else 'utf-8')
-                if enc in ('latin-1', 'latin1', 'iso-8859-1', 'ascii'):
+                if enc in ('latin-1', 'latin1', 'iso-8859-1', 'charmap'):
                     return [(st, VStr(z=self.seq(b, st)))]       # identity embedding of octets into code points 0..255
                 F = z3.Function('DECODE[%s]' % enc, BYTES, BYTES)
-                return [(st, VStr(z=F(self.seq(b, st))))]
+                errors = A[1].s if len(A) > 1 and isinstance(A[1], VStr) else (kws.get('errors').s if kws.get('errors') is not None else 'strict')
+                if errors != 'strict' or self.spec_depth > 0:
+                    return [(st, VStr(z=F(self.seq(b, st))))]
+                # a strict multi-octet codec rejects some octet strings: UnicodeDecodeError (a ValueError) unless the octets are valid
+                VALID = z3.Function('VALID[%s]' % enc, BYTES, z3.BoolSort())
+                xs = self.seq(b, st)
+                st.facts.append(VALID(z3.Empty(BYTES)))
+                res = []
+                for s2, ok in self.fork(st, VALID(xs)):
+                    res.append((s2, VStr(z=F(xs)) if ok else Raise('UnicodeDecodeError', getattr(n, 'lineno', None))))
+                return res
         if isinstance(b, VStr) and name == 'encode':
             if b.s is not None and isinstance(b.s, str):
                 return [(st, VBytes(self.lit_bytes(b.s.encode(A[0].s if A else 'utf-8'))))]
@@ -2146,14 +2199,16 @@ class Exec:
                     out.append((s2, VStr(z=t)))
                 return out
         if isinstance(b, VDict) and name == 'values':
-            return [(st, VTuple([v for _, v in b.pairs]))]
+            return [(st, VTuple([v for _, v in b.of(st)]))]
         if isinstance(b, VDict) and name in ('pop', 'get'):
             k = A[0]
-            for i, (kk, vv) in enumerate(b.pairs):
+            for i, (kk, vv) in enumerate(b.of(st)):
                 e = z3.simplify(self.eq(kk, k, st))
                 if z3.is_true(e):
                     if name == 'pop':
-                        del b.pairs[i]
+                        cur = b.of(st)
+                        del cur[i]
+                        st.heap[b.cell] = tuple(cur)
                     return [(st, vv)]
                 if not z3.is_false(e):
                     if name == 'pop':
@@ -2161,7 +2216,7 @@ class Exec:
                     # symbolic key: one branch per entry that may match, plus the default
                     res = []
                     rest = st
-                    for kk2, vv2 in b.pairs:
+                    for kk2, vv2 in b.of(st):
                         e2 = self.eq(kk2, k, rest)
                         for s2, t in self.fork(rest.clone(), e2):
                             if t:
@@ -2175,11 +2230,11 @@ class Exec:
                 return [(st, A[1])]
             return [(st, VNone() if name == 'get' else Raise('KeyError', getattr(n, 'lineno', None)))]
         if isinstance(b, VDict) and name == 'copy':
-            return [(st, VDict(list(b.pairs)))]
+            return [(st, VDict(b.of(st)))]
         if isinstance(b, VDict) and name == 'keys':
-            return [(st, VTuple([k for k, _ in b.pairs]))]
+            return [(st, VTuple([k for k, _ in b.of(st)]))]
         if isinstance(b, VDict) and name == 'items':
-            return [(st, VTuple([VTuple([k, v]) for k, v in b.pairs]))]
+            return [(st, VTuple([VTuple([k, v]) for k, v in b.of(st)]))]
         if isinstance(b, VList) and name == 'append':
             st.heap[b.cell] = st.heap[b.cell] + (A[0],)
             return [(st, VNone())]
@@ -2345,7 +2400,7 @@ class Exec:
                 raise ToolLimit('iteration over %s (its __iter__ forks, raises or is missing)' % it.cls)
             return self.iter_items(outs[0][1], st)
         if isinstance(it, VDict):
-            return [k for k, _ in it.pairs]
+            return [k for k, _ in it.of(st)]
         if isinstance(it, (VBytes, VBuf)):
             S = self.seq(it, st)
             n = self.concretize(st, z3.Length(S), 1)
@@ -2528,6 +2583,30 @@ class Exec:
                     s.heap[cur.cell] = z3.Concat(s.heap[cur.cell], self.seq(r, s))
                     out.append((s, Next()))
                 return out
+        if isinstance(n.op, ast.Add) and not isinstance(n.target, ast.Name):
+            # list += <set>: list.__iadd__ extends with any iterable (list + set would be a TypeError); then the target is re-bound
+            probe = self.ev_many([self.as_load(n.target), n.value], env, st.clone(), ctx)
+            if len(probe) == 1 and not isinstance(probe[0][1], Raise) and isinstance(probe[0][1][0], VList) and isinstance(probe[0][1][1], VSet):
+                out = []
+                for s, vs in self.ev_many([self.as_load(n.target), n.value], env, st, ctx):
+                    if isinstance(vs, Raise):
+                        out.append((s, vs))
+                        continue
+                    lst, add = vs
+                    branches = [(s, [])]
+                    for j, x in enumerate(add.items):
+                        if add.conds is None:
+                            branches = [(b, acc + [x]) for b, acc in branches]
+                            continue
+                        nxt = []
+                        for b, acc in branches:
+                            for b2, t in self.fork(b, add.conds[j]):
+                                nxt.append((b2, acc + [x] if t else acc))
+                        branches = nxt
+                    for b, acc in branches:
+                        b.heap[lst.cell] = tuple(b.heap[lst.cell]) + tuple(acc)
+                        out += self.assign_target(n.target, lst, env, b, ctx)
+                return out
         out = []
         for s, v in self.ev(load, env, st, ctx):
             out += [(s, v)] if isinstance(v, Raise) else self.assign_target(n.target, v, env, s, ctx)
@@ -2571,12 +2650,21 @@ class Exec:
                             out.append((s3, r if isinstance(r, Raise) else Next()))
                 elif isinstance(o, VDict):
                     hit = False
-                    for i, (kk, _) in enumerate(o.pairs):
-                        if z3.is_true(z3.simplify(self.eq(kk, k, s))):
-                            o.pairs[i] = (kk, v)
+                    cur = o.of(s)
+                    for i, (kk, _) in enumerate(cur):
+                        e = z3.simplify(self.eq(kk, k, s))
+                        if z3.is_true(e):
+                            cur[i] = (kk, v)
                             hit = True
+                        elif not z3.is_false(e):
+                            if self.entails(s, e):
+                                cur[i] = (kk, v)
+                                hit = True
+                            elif not self.entails(s, z3.Not(e)):
+                                raise ToolLimit('dict item assignment with a key that may or may not be present')
                     if not hit:
-                        o.pairs.append((k, v))
+                        cur.append((k, v))
+                    s.heap[o.cell] = tuple(cur)
                     out.append((s, Next()))
                 elif isinstance(o, VBuf):
                     S = s.heap[o.cell]
@@ -2647,10 +2735,16 @@ class Exec:
                         if isinstance(tgt.slice, ast.Slice):
                             for s2, lo in (self.ev(tgt.slice.lower, env, s1, ctx) if tgt.slice.lower else [(s1, None)]):
                                 for s3, hi in (self.ev(tgt.slice.upper, env, s2, ctx) if tgt.slice.upper else [(s2, None)]):
+                                    S = s3.heap[o.cell]
+                                    if (lo is None or lo.conc() == 0) and hi is not None:
+                                        ht = self.in_bounds_prefix(s3, S, hi)
+                                        if ht is not None:
+                                            s3.heap[o.cell] = ht[1]
+                                            nxt.append((s3, Next()))
+                                            continue
                                     a = self.norm_idx(lo, L) if lo is not None else z3.IntVal(0)
                                     b = self.norm_idx(hi, L) if hi is not None else L
                                     b = z3.If(b > a, b, a)
-                                    S = s3.heap[o.cell]
                                     s3.heap[o.cell] = z3.Concat(z3.Extract(S, 0, a), z3.Extract(S, b, L - b))
                                     nxt.append((s3, Next()))
                         else:
